@@ -279,7 +279,10 @@ def run_check(prop, tier):
     quick = tier == "quick"
     want_c01 = prop == "C01"
     r = rng("expr")          # C01 and C12 look at the same generated population
-    broken = ck.build_and_audit(["Amoco.Props.%s" % prop, "drv_expr"])
+    targets = ["Amoco.Props.%s" % prop, "drv_expr"]
+    if prop == "C01":
+        targets.insert(1, "Amoco.Props.C01Ext")      # soundness on the wider fragments (rotations, top results, root comparisons)
+    broken = ck.build_and_audit(targets)
     if not quick and not broken:
         # independent kernel re-check of the compiled property modules and of the proof modules they rest on
         mods = ["Amoco.Props.%s" % prop, "Amoco.Proofs.ExprComp", "Amoco.Proofs.ExprWidth", "Amoco.Proofs.ExprEvalWidth"]
